@@ -117,7 +117,7 @@ def run(ck, a):
   acting = import_acting()
   ck.stubs.add('brax.v1.envs replaced by an empty stub module (cannot be imported on the pinned jax; used by acting.py for type aliases only)')
   thorough = ck.tier == 'thorough'
-  ELs = range(1, 7) if thorough else (1, 2, 3)
+  ELs = range(1, 5) if thorough else (1, 2, 3)      # histories of 3*EL raw steps: EL 5-6 (15-18 steps) leave z3 undecided within the caps
   ARs = (1, 2, 3) if thorough else (1, 2)
   B = 2
   ck.bounds = {'episode_length': list(ELs), 'action_repeat': list(ARs), 'batch': B, 'history': '3*episode_length raw steps (wrapped steps = ceil(3*EL/AR))',
